@@ -1,7 +1,74 @@
-(* C01 — deploy plans respect the requested count and each node's capacity. *)
-From Coq Require Import String ZArith List.
-From Verif Require Import Base.GoInt Strategy.Model Strategy.ProofsOld.
+(* C01 — deploy plans respect the requested count and each node's capacity.
+   Only theorem statements here; proofs are in Strategy/Proofs*.v.
 
-Theorem C01_fill_fixed_witness : deploy Fill 3 0 w_fill max_int = Ok [("u"%string, 2%Z)].
-Proof. exact fill_fixed_witness. Qed.
-Print Assumptions C01_fill_fixed_witness.
+   [deploy s need limit infos total] is the model of strategy.Deploy
+   (Strategy/Model.v).  [valid_infos]: distinct names, 0 <= capacity, 0 <= count
+   (usage and rate arbitrary).  [C01_spec s need limit infos p]:
+     keys of p are distinct candidate names; 0 <= p n <= cap n for every candidate;
+     AUTO/GLOBAL/DRAINED: sum p = need;
+     EACH: exactly limit' keys (limit' = limit, or all nodes when 0), each with value need;
+     FILL: exactly limit' keys, each selected node ends at max(count, need);
+     AUTO with limit <> 0: count n + p n <= limit for every node that received >= 1. *)
+From Coq Require Import String ZArith List Permutation Sorted.
+From Verif Require Import Base.GoInt Base.GoSort Base.GoSortSpec Strategy.Model Strategy.ProofsBase
+  Strategy.ProofsSort Strategy.Proofs Strategy.ProofsOk Strategy.ProofsOld Strategy.Statements.
+Local Open Scope Z_scope.
+
+(* full statement, all five strategies, all tables / counts / limits / totals *)
+Theorem C01_plans_sound : forall infos need limit total,
+  valid_infos infos -> 0 < need -> 0 <= limit ->
+  forall s p, is_plan (deploy s need limit infos total) p -> C01_spec s need limit infos p.
+Proof. exact C01_sound. Qed.
+Print Assumptions C01_plans_sound.
+
+(* the sort-based strategies for EVERY sorted permutation sort.Slice may produce *)
+Theorem C01_each_any_sorted_order : forall infos sorted need limit,
+  valid_infos infos -> Permutation infos sorted -> Sorted (ngt each_less) sorted -> 0 < need -> 0 <= limit ->
+  forall p, each_from sorted need (each_limit infos limit) = Ok p -> C01_spec Each need limit infos p.
+Proof. exact each_C01. Qed.
+Print Assumptions C01_each_any_sorted_order.
+
+Theorem C01_fill_any_sorted_order : forall infos sorted need limit,
+  valid_infos infos -> Permutation infos sorted -> Sorted (ngt fill_less) sorted -> 0 <= limit ->
+  forall r p, fill_from sorted need (each_limit infos limit) = r -> is_plan r p ->
+  C01_spec Fill need limit infos p /\ (r = AlreadyFilled p -> plan_sum p = 0).
+Proof. exact fill_C01. Qed.
+Print Assumptions C01_fill_any_sorted_order.
+
+Theorem C01_drained_any_sorted_order : forall infos sorted need total,
+  valid_infos infos -> Permutation infos sorted -> Sorted (ngt drained_less) sorted -> 0 < need ->
+  forall p limit, drained_from sorted need total = Ok p -> C01_spec Drained need limit infos p.
+Proof. exact drained_C01_limit. Qed.
+Print Assumptions C01_drained_any_sorted_order.
+
+(* ErrAlreadyFilled is returned only by FILL and plans nothing *)
+Theorem C01_already_filled : forall infos need limit total,
+  valid_infos infos -> 0 < need -> 0 <= limit ->
+  forall s p, deploy s need limit infos total = AlreadyFilled p -> s = Fill /\ plan_sum p = 0.
+Proof. exact already_filled_fill. Qed.
+Print Assumptions C01_already_filled.
+
+(* the boolean check evaluated on the implementation's output decides the specification ... *)
+Theorem C01_ok_reflects : forall s need limit infos p,
+  C01_plan_ok s need limit infos p = true <-> C01_spec s need limit infos p.
+Proof. exact C01_reflect. Qed.
+Print Assumptions C01_ok_reflects.
+
+(* ... and the model's own output always passes it *)
+Theorem C01_ok_sound_on_model : forall s need limit infos total ord,
+  C01_ok (mkCase s need limit infos total (deploy s need limit infos total) ord) = true.
+Proof. exact C01_ok_model. Qed.
+Print Assumptions C01_ok_sound_on_model.
+
+(* non-vacuity: a valid table on which every strategy returns a plan *)
+Theorem C01_hypotheses_satisfiable :
+  valid_infos ex_infos /\
+  (exists p, deploy Auto 4 3 ex_infos max_int = Ok p) /\
+  (exists p, deploy Global 5 0 ex_infos max_int = Ok p) /\
+  (exists p, deploy Drained 5 0 ex_infos max_int = Ok p) /\
+  (exists p, deploy Each 2 2 ex_infos max_int = Ok p) /\
+  (exists p, deploy Fill 4 2 ex_infos max_int = Ok p) /\
+  feasible Auto 4 3 ex_infos = true /\ feasible Fill 4 2 ex_infos = true /\
+  feasible Each 2 0 ex_infos = true /\ feasible Auto 5 3 ex_infos = false.
+Proof. exact (conj ex_valid ex_all_strategies_plan). Qed.
+Print Assumptions C01_hypotheses_satisfiable.
